@@ -253,27 +253,27 @@ for _t in ('second', 'minute', 'hour', 'day'):
 GHOST['scale_add'] = {0: "REVEAL_MUL((Z)v);"}
 
 
-# --- day_difference: the two dates are reduced to their 400-year cycle; the ordinal of a date is the cycle ordinal plus 146097 per cycle ----
-def _dd_side(y, m, d):
-    e = "(int)(%s %% 400)" % y
-    return "\n".join([
-        "REVEAL_DAYORD(%s, %s, %s);" % (y, m, d),
-        use('ord_reduce', [y, m, d]),
-        use('I_anchor', [e, m, d]),
-        use('cong', ["(Z)(%s %% 400)" % y, "(Z)(%s)" % e, m, d]),
-        cut("DAYORD(%s, %s, %s) == (Z)ORD_I(%s, %s, %s) + (Z)146097 * (Z)(%s / 400)" % (y, m, d, e, m, d, y), "ordinal = cycle ordinal + 146097 per cycle"),
-    ])
-
-
-DD0 = "const year_t g_qa = y1 / 400;\nconst year_t g_qb = y2 / 400;\n" + _dd_side("y1", "m1", "d1") + "\n" + _dd_side("y2", "m2", "d2") + "\n" + \
-      cut("-292194 < ORD_I((int)(y1 % 400), m1, d1) - ORD_I((int)(y2 % 400), m2, d2) && ORD_I((int)(y1 % 400), m1, d1) - ORD_I((int)(y2 % 400), m2, d2) < 292194",
-          "two dates of the cycle window are less than two cycles apart") + "\n" + \
-      cut("-((Z)1 << 62) < (Z)400 * ((Z)g_qa - (Z)g_qb) && (Z)400 * ((Z)g_qa - (Z)g_qb) < ((Z)1 << 62)", "the cycle distance fits (from the representable result)")
+# --- day_difference: the two dates are reduced to their 400-year cycle; all calendar reasoning is in the code-free lemma_dd ----
+OA = "ORDI((int)(y1 % 400), m1, d1)"
+OB = "ORDI((int)(y2 % 400), m2, d2)"
+DD0 = "const year_t g_qa = y1 / 400;\nconst year_t g_qb = y2 / 400;\n" + use('div400', ['y1']) + "\n" + use('div400', ['y2']) + "\n" + \
+      use('dd', ['y1', 'm1', 'd1', 'y2', 'm2', 'd2'])
 GHOST['day_difference'] = {0: DD0}
+BASE_C4 = "(Z)400 * ((Z)g_qa - (Z)g_qb)"
+KADJ = "((Z)g_qa - (Z)g_qb + g_adj)"
 HOOKS['day_difference'] = [
-    (r'diff_t c4_diff = \( y1 - a_c4_off \)', cut("(Z)c4_diff == (Z)400 * ((Z)g_qa - (Z)g_qb)", "c4_diff is 400 times the cycle distance"), 'after'),
-    (r'diff_t delta = ymd_ord \(', cut("(Z)delta == (Z)ORD_I((int)(y1 % 400), m1, d1) - (Z)ORD_I((int)(y2 % 400), m2, d2)", "delta is the distance inside the cycle window"), 'after'),
+    (r'diff_t c4_diff = \( y1 - a_c4_off \)',
+     "int g_adj = 0;\n" +
+     cut("(Z)y1 - (Z)a_c4_off == (Z)400 * (Z)g_qa && (Z)y2 - (Z)b_c4_off == (Z)400 * (Z)g_qb", "removing the remainder leaves 400 times the quotient") + "\n" +
+     use('c4', ['y1', 'a_c4_off', 'y2', 'b_c4_off', 'g_qa', 'g_qb']) + "\n" +
+     cut("(Z)c4_diff == " + BASE_C4, "c4_diff is 400 times the cycle distance"), 'after'),
+    (r'diff_t delta = ymd_ord \(', cut("(Z)delta == (Z)%s - (Z)%s" % (OA, OB), "delta is the distance inside the cycle window"), 'after'),
+    (r'c4_diff -= 2 \* 400 ;', "g_adj = -2;", 'after'),
+    (r'c4_diff \+= 2 \* 400 ;', "g_adj = 2;", 'after'),
     (r'return \( c4_diff / 400 \* 146097 \) \+ delta',
-     cut("(Z)c4_diff % 400 == 0 && (Z)(c4_diff / 400) * 146097 + (Z)delta == (Z)146097 * ((Z)g_qa - (Z)g_qb) + (Z)ORD_I((int)(y1 % 400), m1, d1) - (Z)ORD_I((int)(y2 % 400), m2, d2)",
-         "the adjusted sum is unchanged")),
+     cut("(g_adj == 0 || g_adj == 2 || g_adj == -2) && (Z)c4_diff == (Z)400 * %s && (Z)delta == (Z)%s - (Z)%s - (Z)146097 * g_adj" % (KADJ, OA, OB), "cycle count and window distance after the adjustment") + "\n" +
+     cut("!(c4_diff > 400 && delta < 0) && !(c4_diff < -400 && delta > 0)", "a large cycle part and the window part do not pull in opposite directions") + "\n" +
+     use('q400', ['c4_diff', KADJ]) + "\n" +
+     cut("(Z)(c4_diff / 400) * 146097 + (Z)delta == DAYORD(y1, m1, d1) - DAYORD(y2, m2, d2)", "the returned sum is the ordinal distance")),
 ]
+GHOST['ymd_ord'] = {0: "REVEAL_ORDI((int)y, m, d);"}
